@@ -141,14 +141,18 @@ func (o *gObj) data(objs []gObj) []byte {
 		}
 		b.WriteString("author A <a@e> 1 +0000\ncommitter C <c@e> 1 +0000\n")
 		b.WriteString(o.extraHeaders(func(i int) string { return hex.EncodeToString(oidOf(i)) }))
-		b.WriteString("\n")
-		b.WriteString(strings.Repeat("x", o.pad))
+		if o.pad >= 0 { // pad < 0: no message and no blank line at all (git accepts such objects)
+			b.WriteString("\n")
+			b.WriteString(strings.Repeat("x", o.pad))
+		}
 	case 'g':
 		typ := map[byte]string{'b': "blob", 't': "tree", 'c': "commit", 'g': "tag"}[o.refKind]
 		fmt.Fprintf(&b, "object %s\ntype %s\ntag t\ntagger T <t@e> 1 +0000\n", hex.EncodeToString(oidOf(o.ref)), typ)
 		b.WriteString(o.extraHeaders(func(i int) string { return hex.EncodeToString(oidOf(i)) }))
-		b.WriteString("\n")
-		b.WriteString(strings.Repeat("x", o.pad))
+		if o.pad >= 0 {
+			b.WriteString("\n")
+			b.WriteString(strings.Repeat("x", o.pad))
+		}
 	}
 	return b.Bytes()
 }
@@ -272,6 +276,33 @@ func genRepo(r *rng, tier string) []gObj {
 		}
 		objs = append(objs, gObj{kind: 'g', ref: 4 + r.n(k), refKind: 'g', pad: r.n(20)})
 	}
+	if shape == 3 && r.coin(1, 6) {
+		// a directory with 255-320 subdirectories (distinct, or all the same tree) below a root tree: when it is
+		// read none of them is known yet, so its count of pending entries passes 256 (a counter narrowed to 8 bits
+		// wraps: seeded changes C01k / C04k / C09k)
+		objs = append(objs, gObj{kind: 'b', size: genBlobSize(r)})
+		n := []int{255, 256, 257, 258, 300, 320}[r.n(6)]
+		same := r.coin(1, 3)
+		first := len(objs)
+		if same {
+			objs = append(objs, gObj{kind: 't', entries: []gEntry{{0o100644, []byte("f"), 0}}})
+		} else {
+			for j := 0; j < n; j++ {
+				objs = append(objs, gObj{kind: 't', entries: []gEntry{{0o100644, []byte(fmt.Sprintf("f%03d", j)), 0}}})
+			}
+		}
+		var es []gEntry
+		for j := 0; j < n; j++ {
+			child := first
+			if !same {
+				child = first + j
+			}
+			es = append(es, gEntry{0o40000, []byte(fmt.Sprintf("%03x", j)), child})
+		}
+		objs = append(objs, gObj{kind: 't', entries: es})
+		objs = append(objs, gObj{kind: 't', entries: []gEntry{{0o40000, []byte("cache"), len(objs) - 1}, {0o100644, []byte("README"), 0}}})
+		objs = append(objs, gObj{kind: 'c', tree: len(objs) - 1, pad: r.n(50)})
+	}
 	if shape == 0 {
 		// git bomb: a chain of trees, each holding k copies of the previous level
 		objs = append(objs, gObj{kind: 'b', size: genBlobSize(r)})
@@ -362,6 +393,9 @@ func genRepo(r *rng, tier string) []gObj {
 				}
 			}
 			pad := r.n(200)
+			if r.coin(1, 12) {
+				pad = -1 // a commit without a message and without the blank line (seeded change C03k split the header block on LF)
+			}
 			if r.coin(1, 20) {
 				pad = 60000 + r.n(10000)
 			}
@@ -375,6 +409,9 @@ func genRepo(r *rng, tier string) []gObj {
 				ref = tags[r.n(len(tags))]
 			}
 			g := gObj{kind: 'g', ref: ref, refKind: objs[ref].kind, pad: r.n(40)}
+			if r.coin(1, 8) {
+				g.pad = -1
+			}
 			genExtra(r, &g, nil, nil)
 			objs = append(objs, g)
 		}
